@@ -11,6 +11,10 @@ CONSTANTS
   AnchorFlows = {"flows/a.yaml"}
   Paths <- PathsMC
   Cat <- CatMC
+  Inert <- NestedFlows
+  Unseen = {}
+  NestedPP = {}
+  NestedFlows = {}
   Txns = {}
   RestoreWrongDirection = FALSE
   PublishBeforeInit = FALSE
